@@ -159,9 +159,13 @@ func (b *Bytes) store(addr model.Addr, bs []byte) int {
 	b.blocks = append(b.blocks, byteBlock{})
 	copy(b.blocks[idx+1:], b.blocks[idx:])
 
+	// Bytes of the block are modified by later stores, so we need our own
+	// copy not to modify the (immutable) constant stored.
+	bytes := make([]byte, end-addr)
+	copy(bytes, bs)
 	b.blocks[idx] = byteBlock{
 		begin: addr,
-		bytes: bs[:end-addr],
+		bytes: bytes,
 	}
 
 	return int(end - addr)
